@@ -133,9 +133,14 @@ type kvRangeArgs struct {
 	UUID string `json:"uuid"`
 	Lo   string `json:"lo"`
 	Hi   string `json:"hi"`
+	// Whole = "true": the whole key class of the keyvalue datatype instead of [lo, hi]
+	Whole string `json:"whole,omitempty"`
+	// Raw = "true": a storage.DataContext (Versioned() = false: the store's unversioned scan and plain
+	// deletes) at the version instead of a datastore.VersionedCtx; meaningful on an unversioned instance
+	Raw string `json:"raw_ctx,omitempty"`
 }
 
-func kvCtx(a kvRangeArgs) (*datastore.VersionedCtx, storage.OrderedKeyValueDB, storage.TKey, storage.TKey, error) {
+func kvCtx(a kvRangeArgs) (storage.Context, storage.OrderedKeyValueDB, storage.TKey, storage.TKey, error) {
 	d, err := datastore.GetDataByUUIDName(dvid.UUID(a.UUID), dvid.InstanceName(a.Data))
 	if err != nil {
 		return nil, nil, nil, nil, err
@@ -148,10 +153,23 @@ func kvCtx(a kvRangeArgs) (*datastore.VersionedCtx, storage.OrderedKeyValueDB, s
 	if err != nil {
 		return nil, nil, nil, nil, err
 	}
+	if !d.Versioned() {
+		// as the HTTP layer does for an unversioned instance: everything acts at the root version
+		if v, err = datastore.GetRepoRootVersion(v); err != nil {
+			return nil, nil, nil, nil, err
+		}
+	}
+	var ctx storage.Context = datastore.NewVersionedCtx(d, v)
+	if a.Raw == "true" {
+		ctx = storage.NewDataContext(d, v)
+	}
+	if a.Whole == "true" {
+		return ctx, db, storage.MinTKey(kvKeyClass), storage.MaxTKey(kvKeyClass), nil
+	}
 	// keyvalue datatype TKey: class 177? use the datatype's own constructor semantics: class byte + key + 0
 	lo := storage.NewTKey(kvKeyClass, append([]byte(a.Lo), 0))
 	hi := storage.NewTKey(kvKeyClass, append([]byte(a.Hi), 0))
-	return datastore.NewVersionedCtx(d, v), db, lo, hi, nil
+	return ctx, db, lo, hi, nil
 }
 
 // keyvalue.keyStandard
@@ -258,4 +276,143 @@ func callKVDeleteRange(args json.RawMessage) (interface{}, error) {
 		return nil, err
 	}
 	return nil, db.DeleteRange(ctx, lo, hi)
+}
+
+func init() {
+	calls["kv.putrange"] = callKVPutRange
+}
+
+// callKVPutRange stores the given keys (ascending) through OrderedKeyValueSetter.PutRange, values
+// serialized as the keyvalue datatype does.
+func callKVPutRange(args json.RawMessage) (interface{}, error) {
+	var a struct {
+		Data   string   `json:"data"`
+		UUID   string   `json:"uuid"`
+		Keys   []string `json:"keys"`
+		Values []string `json:"values"`
+		Raw    string   `json:"raw_ctx,omitempty"`
+	}
+	if err := json.Unmarshal(args, &a); err != nil {
+		return nil, err
+	}
+	if len(a.Keys) != len(a.Values) {
+		return nil, fmt.Errorf("keys and values differ in number")
+	}
+	ctx, db, _, _, err := kvCtx(kvRangeArgs{Data: a.Data, UUID: a.UUID, Raw: a.Raw})
+	if err != nil {
+		return nil, err
+	}
+	d, err := datastore.GetDataByUUIDName(dvid.UUID(a.UUID), dvid.InstanceName(a.Data))
+	if err != nil {
+		return nil, err
+	}
+	cd, ok := d.(interface {
+		Compression() dvid.Compression
+		Checksum() dvid.Checksum
+	})
+	if !ok {
+		return nil, fmt.Errorf("data %q has no compression / checksum settings", a.Data)
+	}
+	kvs := make([]storage.TKeyValue, len(a.Keys))
+	for i := range a.Keys {
+		ser, err := dvid.SerializeData([]byte(a.Values[i]), cd.Compression(), cd.Checksum())
+		if err != nil {
+			return nil, err
+		}
+		kvs[i] = storage.TKeyValue{K: storage.NewTKey(kvKeyClass, append([]byte(a.Keys[i]), 0)), V: ser}
+	}
+	return nil, db.PutRange(ctx, kvs)
+}
+
+func init() {
+	calls["kv.rawput"] = func(args json.RawMessage) (interface{}, error) { return kvRaw(args, "put") }
+	calls["kv.rawdel"] = func(args json.RawMessage) (interface{}, error) { return kvRaw(args, "del") }
+	calls["kv.rawget"] = func(args json.RawMessage) (interface{}, error) { return kvRaw(args, "get") }
+}
+
+// kvRaw: Put / Delete / Get of the store with a storage.DataContext (the unversioned branches:
+// a plain entry per key, a deletion removes it).
+func kvRaw(args json.RawMessage, op string) (interface{}, error) {
+	var a struct {
+		Data  string `json:"data"`
+		UUID  string `json:"uuid"`
+		Key   string `json:"key"`
+		Value string `json:"value"`
+	}
+	if err := json.Unmarshal(args, &a); err != nil {
+		return nil, err
+	}
+	ctx, db, _, _, err := kvCtx(kvRangeArgs{Data: a.Data, UUID: a.UUID, Raw: "true"})
+	if err != nil {
+		return nil, err
+	}
+	tk := storage.NewTKey(kvKeyClass, append([]byte(a.Key), 0))
+	switch op {
+	case "put":
+		d, err := datastore.GetDataByUUIDName(dvid.UUID(a.UUID), dvid.InstanceName(a.Data))
+		if err != nil {
+			return nil, err
+		}
+		cd, ok := d.(interface {
+			Compression() dvid.Compression
+			Checksum() dvid.Checksum
+		})
+		if !ok {
+			return nil, fmt.Errorf("data %q has no compression / checksum settings", a.Data)
+		}
+		ser, err := dvid.SerializeData([]byte(a.Value), cd.Compression(), cd.Checksum())
+		if err != nil {
+			return nil, err
+		}
+		return nil, db.Put(ctx, tk, ser)
+	case "del":
+		return nil, db.Delete(ctx, tk)
+	}
+	v, err := db.Get(ctx, tk)
+	if err != nil {
+		return nil, err
+	}
+	val, _, err := dvid.DeserializeData(v, true)
+	if err != nil {
+		return nil, err
+	}
+	return map[string]interface{}{"found": v != nil, "value": string(val)}, nil
+}
+
+func init() { calls["kv.stream"] = callKVStream }
+
+// callKVStream: keyvalue.Data.StreamKV, the whole instance at one version as a stream of pairs.
+func callKVStream(args json.RawMessage) (interface{}, error) {
+	var a kvRangeArgs
+	if err := json.Unmarshal(args, &a); err != nil {
+		return nil, err
+	}
+	d, err := datastore.GetDataByUUIDName(dvid.UUID(a.UUID), dvid.InstanceName(a.Data))
+	if err != nil {
+		return nil, err
+	}
+	kd, ok := d.(interface {
+		StreamKV(v dvid.VersionID) (chan storage.KeyValue, error)
+	})
+	if !ok {
+		return nil, fmt.Errorf("data %q has no StreamKV", a.Data)
+	}
+	v, err := datastore.VersionFromUUID(dvid.UUID(a.UUID))
+	if err != nil {
+		return nil, err
+	}
+	if !d.Versioned() {
+		if v, err = datastore.GetRepoRootVersion(v); err != nil {
+			return nil, err
+		}
+	}
+	ch, err := kd.StreamKV(v)
+	if err != nil {
+		return nil, err
+	}
+	out := []kvPair{}
+	for kv := range ch {
+		out = append(out, kvPair{string(kv.K), string(kv.V)})
+	}
+	return out, nil
 }
